@@ -226,13 +226,21 @@ def random_bld(rng, box, nch):
             ents.append({"id": k, "kind": kind, "inout": inout, "mname": mname, "mlo": mlo, "mhi": mhi, "rn": rn, "rlo": rlo, "rhi": rhi,
                          "point": c0, "par": par})
             txt.append("[ %s ]\n%s %d %d %s %.3f %.3f %.3f %s" % (kind, rn, rlo, rhi, inout, c0[0], c0[1], c0[2], " ".join("%.3f" % x for x in par)))
+    # a region that reaches across a box face on one side only (centre on the face z = 0): positions are wrapped into the box,
+    # so a residue may only be accepted on the inner side
+    k += 1
+    face = {"id": k, "kind": rng.choice(["rectangle", "cylinder"]), "inout": "in", "mname": "CH", "mlo": last, "mhi": last + 1, "rn": "RA", "rlo": 1, "rhi": 4,
+            "point": [box / 2.0, box / 2.0, box], "par": None}     # the top face: the molecule is also told to grow upwards
+    face["par"] = [round(2.5 + 0.001 * k, 3), 2.5, 1.3] if face["kind"] == "rectangle" else [round(2.5 + 0.001 * k, 3), 1.3]
+    ents.append(face)
+    txt.append("[ molecule ]\nCH %d %d\n[ %s ]\nRA 1 4 in %.3f %.3f %.3f %s" % (last, last + 1, face["kind"], box / 2.0, box / 2.0, box, " ".join("%.3f" % x for x in face["par"])))
     rw = None
     if rng.random() < 0.8:
         k += 1
         rlo = rng.randint(2, 5)
         rw = {"id": k, "kind": "rw", "mname": "CH", "mlo": last, "mhi": last + 1, "rn": rng.choice(["RA", "RB"]), "rlo": rlo, "rhi": rlo + 4,
               "normal": [0.0, 0.0, 1.0], "angle": rng.choice([90.0, 70.0, 50.0])}
-    dist = {"mname": "CH", "mlo": 0, "mhi": nch, "ref": rng.choice([0, 1]), "target": rng.choice([5, 6, 7]), "d": round(rng.uniform(0.8, 1.8), 2), "tol": round(rng.uniform(0.1, 0.3), 2)}
+    dist = {"mname": "CH", "mlo": 0, "mhi": nch, "ref": rng.choice([0, 1, 2, 2]), "target": rng.choice([5, 6, 7]), "d": round(rng.uniform(0.8, 1.8), 2), "tol": round(rng.uniform(0.1, 0.3), 2)}
     if rng.random() < 0.5:
         dist["ref"], dist["target"] = dist["target"], dist["ref"]
     return ents, txt, rw, dist
@@ -359,10 +367,29 @@ def _e2e(arg):
             wd = Path(wd)
             (wd / "m.top").write_text(mix_top(nch, npl, nrg, ring))
             (wd / "m.bld").write_text("\n".join(text) + "\n")
-            with w.recording(monitor=monitor) as rec:
+            # a forced failure schedule: random failures, plus one failure aimed at the residue nrewind-1 steps after the reference
+            # residue of the distance restraint, so that the rewind regrows the reference residue after restrained residues were tried
+            budget = {"n": rng.randint(2, 8)}
+            nrew = rng.choice([2, 3, 3, 5])
+            first_anchor = min(dist["ref"], dist["target"])
+            aimed, holder = set(), {}
+
+            def chooser(kinds):
+                if kinds[0] != "ok":
+                    return kinds[0]
+                mi, node = holder["rec"].cur.get("placing", (None, None))
+                if mi is not None and dist["mlo"] <= mi < dist["mhi"] and first_anchor >= 1 and node == first_anchor + nrew - 1 and mi not in aimed:
+                    aimed.add(mi)
+                    return "fail"
+                if budget["n"] > 0 and rng.random() < 0.1:
+                    budget["n"] -= 1
+                    return "fail"
+                return kinds[0]
+            with w.recording(monitor=monitor, chooser=chooser) as rec:
+                holder["rec"] = rec
                 try:
                     gen_coords(toppath=wd / "m.top", outpath=wd / "o.gro", name="m", box=np.array([box] * 3), build=[wd / "m.bld"], cycles=["RG", "RH"], cycle_tol=cyc_tol,
-                               max_force=5e4, grid_spacing=0.4)
+                               max_force=5e4, grid_spacing=0.4, nrewind=nrew)
                 except _Timeout:
                     return {"noverdict": "timeout"}
                 except Exception as exc:
